@@ -37,7 +37,8 @@ class RngStub:
         q = (np.arange(n) + 0.5) / n
         z = np.sqrt(2) * _erfinv(2 * q - 1)
         z = z - z.mean()
-        z = z / z.std()
+        if n > 1:
+            z = z / z.std()
         rs = np.random.RandomState(7654321 + self.perm_seed)
         return rs.permutation(z)
 
